@@ -25,7 +25,8 @@ RULE = ("seeded simple graphs without isolated vertices: clustered graphs (union
         "add_edges_from; m0 in 2..6 (below, at, above the clique number); tie-break schedules uniform/first/last/"
         "sticky/mix; the iteration order of the library's hash sets (unspecified by the language) natural / reversed / rotated / "
         "shuffled by the scheduler; aborts at a chosen decision then a fresh object; non-trivial = graph has >= 2 edges; distinct = "
-        "distinct execution digests")
+        "distinct execution digests; thorough tier only: one clique of 1420-1500 vertices (a million edges) sharing an edge "
+        "with a triangle, m0 = order / order+7 / 2^31, exact-cover oracle only")
 ASSUMPTIONS = ["oracle computes adjacency and maximal cliques itself (own Bron-Kerbosch), independent of networkx find_cliques",
                "a result must arrive within 50*|E|+100 tie-break decisions (each round removes at least one edge)"]
 REAL = ["gcmpy.covers.eecc.EECC", "gcmpy.network.network.Network", "networkx find_cliques (inside the library)",
@@ -109,6 +110,13 @@ def gen_graph(prng, big):
 
 
 def generate(prng, tier, index):
+    if tier == "thorough" and index == 0:
+        # scale (thorough tier only, ~1 minute): one clique of ~1.5e3 vertices (a million edges) sharing the edge (0, 1) with
+        # a triangle - clique scores are k / C(order, 2), so anything that rounds, caps or compares them with a
+        # tolerance only shows when C(order, 2) is of the order of 1e6
+        n = prng.choice((1420, 1450, 1500))
+        return {"variant": "clean", "scale": n, "edges": None, "m0": prng.choice((n, n + 7, 2 ** 31)), "policy": {},
+                "build": "add_edges_from", "set_order": "natural"}
     big = tier == "thorough"
     variant = "faults" if index % 5 == 4 else "clean"
     sc = {"variant": variant, "edges": gen_graph(prng, big),
@@ -205,7 +213,52 @@ def verify(sc, ctx, cover, g, tag=""):
             ctx.probe("overlapping_large_cliques")
 
 
+def execute_scale(sc, ctx):
+    """K_n on 0..n-1 plus vertex n adjacent to 0 and 1.  Oracle: exact cover (own adjacency), nothing else."""
+    P = "C09"
+    n, m0 = sc["scale"], sc["m0"]
+    edges = [(a, b) for a in range(n) for b in range(a + 1, n)] + [(0, n), (1, n)]
+    g = EECC()
+    g.add_edges_from(edges)
+    g.set_max_clique_size(m0)
+    src = ctx.source("tie", sc.get("policy"))
+    st, cover = ctx.call(src, g.get_EECC, budget=None, label="get_EECC[scale]")
+    if st != "ok":
+        ctx.violate(f"{P}.raised", f"get_EECC on K_{n} plus a triangle on one of its edges (m0={m0}): {st} {describe_exc(cover) if st == 'raised' else ''}")
+        return
+    ctx.probe("scale_run_edges", len(edges))
+    ctx.check(f"{P}.clique"); ctx.check(f"{P}.size"); ctx.check(f"{P}.exact")
+    adj = {}
+    for a, b in edges:
+        adj.setdefault(a, set()).add(b)
+        adj.setdefault(b, set()).add(a)
+    seen = set()
+    for c in cover:
+        vs = list(c)
+        if len(set(vs)) != len(vs) or not 2 <= len(vs) <= m0:
+            ctx.violate(f"{P}.size", f"cover element with {len(vs)} entries ({len(set(vs))} distinct), m0={m0}")
+            return
+        for i, a in enumerate(vs):
+            na = adj.get(a, ())
+            for b in vs[i + 1:]:
+                if b not in na:
+                    ctx.violate(f"{P}.clique", f"cover element of {len(vs)} vertices contains the non-adjacent pair {(a, b)}")
+                    return
+                e = (a, b) if a < b else (b, a)
+                if e in seen:
+                    ctx.violate(f"{P}.exact", f"edge {e} of K_{n} + triangle is in two cover elements (element sizes "
+                                             f"{sorted((len(x) for x in cover), reverse=True)[:5]})")
+                    return
+                seen.add(e)
+    if len(seen) != len(edges):
+        ctx.violate(f"{P}.exact", f"{len(edges) - len(seen)} of {len(edges)} edges are in no cover element")
+    ctx.nedges = len(edges)
+    ctx.result(n, m0, sorted((len(x) for x in cover), reverse=True)[:8])
+
+
 def execute(sc, ctx):
+    if sc.get("scale"):
+        return execute_scale(sc, ctx)
     P = "C09"
     nE = len({frozenset(e) for e in sc["edges"]})
     budget = 50 * nE + 100
@@ -253,6 +306,8 @@ def nontrivial(sc, ctx):
 
 
 def shrink(sc):
+    if sc.get("scale"):
+        return
     if sc["variant"] == "faults":
         yield dict(sc, variant="clean")
     es = sc["edges"]
